@@ -3,6 +3,7 @@ package bcl
 import (
 	"fmt"
 	"reflect"
+	"sort"
 	"strings"
 	"unicode"
 	"unicode/utf8"
@@ -56,6 +57,9 @@ func copyBlocks(target any, binding Binding) error {
 }
 
 func copyBlock(v reflect.Value, block Block) error {
+	if k := v.Kind(); k != reflect.Struct {
+		return fmt.Errorf("block %s: expected struct, have: %s", block.Type, k)
+	}
 	t := v.Type()
 	if st, bt := t.Name(), block.Type; st != "" && !unsnakeEq(st, bt) {
 		return fmt.Errorf("mismatch: struct type %s, block type %s", st, bt)
@@ -68,6 +72,9 @@ func copyBlock(v reflect.Value, block Block) error {
 			tagged[tagv] = i
 		}
 	}
+
+	// taken maps the struct fields set so far to the block key stored there
+	taken := map[string]string{}
 
 	setField := func(name string, x any) error {
 		var f reflect.StructField
@@ -92,11 +99,26 @@ func copyBlock(v reflect.Value, block Block) error {
 			return fmt.Errorf("found field %q but is unexported", f.Name)
 		}
 
-		namei := f.Index[0]
+		if x == nil {
+			return fmt.Errorf(
+				"nil value for the mapped field: struct.%s, block.%s", f.Name, name,
+			)
+		}
+		fv, err := v.FieldByIndexErr(f.Index)
+		if err != nil {
+			return fmt.Errorf("mapped field struct.%s: %w", f.Name, err)
+		}
+		if prev, ok := taken[fmt.Sprint(f.Index)]; ok {
+			return fmt.Errorf(
+				"block.%s and block.%s are both mapped to struct.%s", prev, name, f.Name,
+			)
+		}
+		taken[fmt.Sprint(f.Index)] = name
+
 		vx := reflect.ValueOf(x)
 
 		if vx.Type().AssignableTo(blockType) {
-			return copyBlock(v.Field(namei), x.(Block))
+			return copyBlock(fv, x.(Block))
 		}
 
 		if st, bt := f.Type, vx.Type(); !bt.AssignableTo(st) {
@@ -106,7 +128,7 @@ func copyBlock(v reflect.Value, block Block) error {
 			)
 		}
 
-		v.Field(namei).Set(vx)
+		fv.Set(vx)
 		return nil
 	}
 
@@ -117,9 +139,19 @@ func copyBlock(v reflect.Value, block Block) error {
 		}
 		return err
 	}
+	if block.Name == "" {
+		// an unnamed block may still set the name field explicitly
+		clear(taken)
+	}
 fields:
-	for fkey, fval := range block.Fields {
-		err = setField(fkey, fval)
+	// sorted, so that the outcome does not depend on the map order
+	fkeys := make([]string, 0, len(block.Fields))
+	for fkey := range block.Fields {
+		fkeys = append(fkeys, fkey)
+	}
+	sort.Strings(fkeys)
+	for _, fkey := range fkeys {
+		err = setField(fkey, block.Fields[fkey])
 		if err != nil {
 			return err
 		}
